@@ -201,6 +201,10 @@ def run(chk):
                     stix2.FileSystemSink(root, allow_custom=True).add(copy.deepcopy(d))
                     bpath = _os2.path.join(root, 'all.json'); open(bpath, 'w').write(json.dumps({'type': 'bundle', 'id': 'bundle--' + G.UUID, 'objects': [d]}))
                 except Exception: return None
+                # (history: a permissive reader of this process looked at the same files first -- the strictness of a read is the reader's, not the first reader's)
+                try:
+                    pr = stix2.FileSystemSource(root, allow_custom=True); pr.get(d['id']); pr.query([stix2.Filter('id', '=', d['id'])]); pr.all_versions(d['id'])
+                except Exception: pass
                 if route.startswith('FileSystemStore(dir, False)'): rd = FileSystemStore(root, False)
                 elif route.startswith('FileSystemStore'): rd = FileSystemStore(root, allow_custom=False)
                 elif route.startswith('FileSystemSource'): rd = stix2.FileSystemSource(root, allow_custom=False)
@@ -229,6 +233,14 @@ def run(chk):
         V = stix2.v21; V0 = stix2.v20
         er = lambda m: m.ExternalReference(allow_custom=True, source_name='s', x_inner=1)
         er_hash = lambda m: m.ExternalReference(allow_custom=True, source_name='s', url='http://x', hashes={'x-my-hash': 'abc'})
+        # list-valued properties handed ONE bare value instead of a list (the documented shorthand): the same content, the same answer
+        yield ('bare embedded object (ExternalReference) with a custom property instead of a list', lambda ac: V.Identity(allow_custom=ac, name='n', external_references=er(V)))
+        yield ('bare embedded object (2.0) with a custom property instead of a list', lambda ac: V0.Identity(allow_custom=ac, name='n', identity_class='individual', external_references=er(V0)))
+        yield ('bare kill chain phase object with a custom property instead of a list', lambda ac: V.Malware(allow_custom=ac, name='m', is_family=False, kill_chain_phases=V.KillChainPhase(allow_custom=True, kill_chain_name='k', phase_name='p', x_inner=1)))
+        yield ('bare reference to a custom type instead of a list', lambda ac: V.Report(allow_custom=ac, name='r', published='2020-01-01T00:00:00Z', report_types=['threat-report'], object_refs='x-vf-custom-type--' + G.UUID))
+        yield ('bare reference to a custom type instead of a list (2.0)', lambda ac: V0.Report(allow_custom=ac, name='r', published='2020-01-01T00:00:00Z', labels=['threat-report'], object_refs='x-vf-custom-type--' + G.UUID))
+        yield ('bundle given one customized object instead of a list', lambda ac: V.Bundle(objects=V.Identity(allow_custom=True, name='n', x_inner=1), allow_custom=ac))
+        yield ('bare label list member: object_marking_refs to a custom type as one string', lambda ac: V.Identity(allow_custom=ac, name='n', object_marking_refs='x-vf-custom-marking--' + G.UUID))
         yield ('embedded object (ExternalReference) with a custom property', lambda ac: V.Identity(allow_custom=ac, name='n', external_references=[er(V)]))
         yield ('embedded object (ExternalReference, 2.0) with a custom property', lambda ac: V0.Identity(allow_custom=ac, name='n', identity_class='individual', external_references=[er(V0)]))
         yield ('embedded object with a non-specification hash algorithm', lambda ac: V.Identity(allow_custom=ac, name='n', external_references=[er_hash(V)]))
